@@ -32,12 +32,17 @@ package announce
 //@   shutdown done
 
 //@ func (*Receiver).UncacheCid
-//@   property C16
+//@   property C16 C09
 //@   requires recvOK(r) && !held(r.announceMutex)
+//@   modifies state(r.announceCache)
+//@   ensures recvOK(r)
+//@   ensures-local count("call:remove") == 1
 
 //@ func (*Receiver).Direct
-//@   property C16
+//@   property C16 C09
 //@   requires recvOK(r) && !held(r.announceMutex) && ctx != nil
+//@   at call handleAnnounce#1: assert arg2.Cid == nextCid && arg2.PeerID == peerInfo.ID && arg2.Addrs == peerInfo.Addrs && arg3 == r.resend
+//@   ensures recvOK(r)
 
 // Delivery: the announcement is handed to the consumer only if the check
 // passed, at most once, with the announced CID and publisher unchanged (and the
@@ -46,6 +51,8 @@ package announce
 //@ func (*Receiver).handleAnnounce
 //@   property C16 C09
 //@   requires recvOK(r) && !held(r.announceMutex) && ctx != nil
+//@   modifies state(r.announceCache)
+//@   ensures recvOK(r)
 //@   shutdown done
 //@   ghost ok := false
 //@   at call announceCheck#1: after ghost ok := result == nil
@@ -63,6 +70,7 @@ package announce
 //@   property C16 C09
 //@   requires recvOK(r) && !held(r.announceMutex)
 //@   modifies state(r.announceCache)
+//@   ensures recvOK(r)
 //@   ghost allowed := true
 //@   at call allowPeer#1: after ghost allowed := result
 //@   ensures-local !allowed ==> result != nil && count("call:update") == 0 && count("lock:announceMutex") == 0
